@@ -27,6 +27,13 @@ fn ids(thorough: bool) -> Vec<RefVal> {
         }
         v.push(RefVal::Ref { node: node.to_string(), creation: 1, ids: vec![7] });
     }
+    // node names at the atom limit of 255 characters: 255 bytes of ASCII, and up to 1020 bytes of UTF-8
+    for node in ["a".repeat(253) + "@h", "é".repeat(150) + "@h", "é".repeat(253) + "@h", "😀".repeat(253) + "@h"] {
+        v.push(RefVal::Pid { node: node.clone(), id: 1, serial: 2, creation: 3 });
+        v.push(RefVal::Port { node: node.clone(), id: 1 << 40, creation: 7 });
+        v.push(RefVal::Ref { node: node.clone(), creation: 9, ids: vec![1, 2, 3, 4, 5] });
+        v.push(RefVal::Ref { node, creation: 9, ids: vec![1] });
+    }
     v
 }
 
@@ -176,6 +183,38 @@ pub fn run(rep: &Report) -> serde_json::Value {
                 }
             }
         }
+        // two identifiers that differ in one logical field only are two different keys: a map holding both keeps both,
+        // through the owned and the zero-copy decoder, and both are written back
+        {
+            let variants: Vec<RefVal> = match v {
+                RefVal::Pid { node, id, serial, creation } => vec![
+                    RefVal::Pid { node: node.clone(), id: id ^ 1, serial: *serial, creation: *creation }, RefVal::Pid { node: node.clone(), id: *id, serial: serial ^ 1, creation: *creation },
+                    RefVal::Pid { node: node.clone(), id: *id, serial: *serial, creation: creation ^ 1 }, RefVal::Pid { node: format!("{}x", node.chars().take(5).collect::<String>()), id: *id, serial: *serial, creation: *creation }],
+                RefVal::Port { node, id, creation } => vec![RefVal::Port { node: node.clone(), id: id ^ 1, creation: *creation }, RefVal::Port { node: node.clone(), id: id ^ (1 << 40), creation: *creation }, RefVal::Port { node: node.clone(), id: *id, creation: creation ^ 1 }],
+                RefVal::Ref { node, creation, ids } => { let mut a = ids.clone(); a[0] ^= 1; let mut b = ids.clone(); let l = b.len() - 1; b[l] ^= 1; vec![RefVal::Ref { node: node.clone(), creation: *creation, ids: a }, RefVal::Ref { node: node.clone(), creation: *creation, ids: b }, RefVal::Ref { node: node.clone(), creation: creation ^ 1, ids: ids.clone() }] }
+                _ => vec![],
+            };
+            let (_, plain_v, _) = &fs[0];
+            for w in &variants {
+                let mut wb = vec![];
+                w_id(&mut wb, w, IdStyle::Modern, None);
+                for (first, second) in [(plain_v, &wb), (&wb, plain_v)] {
+                    let mut wire = vec![131u8, 116, 0, 0, 0, 2];
+                    wire.extend_from_slice(first); wire.extend_from_slice(&[97, 1]);
+                    wire.extend_from_slice(second); wire.extend_from_slice(&[97, 2]);
+                    let Ok(want) = ref_decode(&wire) else { continue };
+                    rep.add("evaluations", 1);
+                    let owned = erltf::decode(&wire).ok();
+                    let borrowed = erltf::decode_borrowed(&wire).ok().map(|b| b.to_owned());
+                    for (which, t) in [("owned", owned), ("zero-copy", borrowed)] {
+                        let ok = t.as_ref().map(|t| exact_eq(&denote(t), &want) && erltf::encode(t).ok().and_then(|b| ref_decode(&b).ok()).map(|r| exact_eq(&r, &want)).unwrap_or(false)).unwrap_or(false);
+                        if !ok {
+                            rep.violation("a map keyed by two identifiers that differ in one field loses or merges a key", json!({"decoder": which, "key_a": v.short(), "key_b": w.short(), "bytes": hex(&wire), "decoded": t.as_ref().map(|t| denote(t).short())}));
+                        }
+                    }
+                }
+            }
+        }
         for (flabel, fbytes, is_local) in &fs {
             for (clabel, cbytes) in contexts(fbytes, matches!(v, RefVal::Pid { .. })) {
                 let mut wire = vec![131];
@@ -228,7 +267,7 @@ pub fn run(rep: &Report) -> serde_json::Value {
     json!({
         "evaluations": rep.get("evaluations"),
         "distinct_nontrivial": rep.get("distinct_nontrivial"),
-        "rule": "identifiers (pid/port/ref 1..5 words, field boundaries, ASCII and non-ASCII node) x {plain modern form, LOCAL_EXT with 3 hashes x inner forms that are deliberately non-canonical (ATOM_UTF8_EXT node, legacy PID/PORT/REFERENCE_EXT, NEW_REFERENCE_EXT, Latin-1 node)} x 8-9 term contexts x every sequence of clone/move/to-borrowed-and-back up to the tier's length x {encode, encode_with_dist_header}; distinct_nontrivial = distinct input byte strings",
+        "rule": "identifiers (pid/port/ref 1..5 words, field boundaries, ASCII and non-ASCII node, node names of 255 characters in 255..1022 bytes) x {plain modern form, LOCAL_EXT with 3 hashes x inner forms that are deliberately non-canonical (ATOM_UTF8_EXT node, legacy PID/PORT/REFERENCE_EXT, NEW_REFERENCE_EXT, Latin-1 node)} x 8-9 term contexts x every sequence of clone/move/to-borrowed-and-back up to the tier's length x {encode, encode_with_dist_header}; distinct_nontrivial = distinct input byte strings",
         "exhaustive": true,
         "identifiers": idv.len(),
         "conversion_sequences": seqs.len(),
